@@ -352,3 +352,61 @@ func verifC16_queued_writer() {
 	c.CloseNow()
 	vObserve("c16queued", how, len(frames))
 }
+
+// C16.write-vs-close: one Write racing one Close from the start (the peer's echo arrives a second after the Close frame), every interleaving
+// at synchronisation operations within the preemption bound: whatever each call returns, no data frame follows the Close
+// frame on the wire.
+func verifC16_write_vs_close() {
+	client := vParam("client", 1) == 1
+	vInstallRand()
+	echo := vFrame{fin: true, opcode: 8, masked: !client, payload: []byte{0x03, 0xe8}}
+	if echo.masked {
+		copy(echo.key[:], vBytes("key", 4))
+	}
+	t := vNewTransport(vEncodeFrame(echo))
+	t.endMode = vEndBlock
+	// the peer's echo comes a second after our Close frame (late enough for a writer to get in between)
+	gate := t.vTimedGate(0)
+	wrote := t.vNotifyAt(1)
+	go func() {
+		select {
+		case <-wrote:
+		case <-t.closed:
+			return
+		}
+		time.Sleep(time.Second)
+		t.vOpenGate(gate)
+	}()
+	c := vNewConn(t, client, nil, 16, 64)
+	wdone := make(chan struct{})
+	if vParam("atomics", 1) == 1 {
+		vGhostExploreAtomics(vParam("preempt", 2))
+	} else {
+		vGhostExplore(vParam("preempt", 1))
+	}
+	go func() {
+		ctx, cancel := context.WithTimeout(vBG, 3*time.Second)
+		c.Write(ctx, MessageText, vBytes("x", 1))
+		cancel()
+		close(wdone)
+	}()
+	c.Close(StatusNormalClosure, "")
+	<-wdone
+	vGhostExploreOff()
+	vReach("C16.wvc.done")
+	frames, ok := vParseWritten(t.out)
+	vAssert(ok, "C16.wvc.wellformed")
+	seenClose := false
+	good := true
+	for _, f := range frames {
+		if seenClose && f.opcode <= 8 {
+			good = false
+		}
+		if f.opcode == 8 {
+			seenClose = true
+		}
+	}
+	vAssert(good, "C16.seq.nothing-after-close")
+	c.CloseNow()
+	vObserve("c16wvc", len(frames))
+}
